@@ -90,10 +90,11 @@ type IPCPNegotiatedOptions struct {
 
 // IPCPStateMachine implements the RFC 1661 NCP state machine for IPCP
 type IPCPStateMachine struct {
-	state      IPCPState
-	config     IPCPConfig
-	negotiated IPCPNegotiatedOptions
-	sessionID  string // For IP pool allocation
+	state        IPCPState
+	config       IPCPConfig
+	negotiated   IPCPNegotiatedOptions
+	sessionID    string // For IP pool allocation
+	peerFromPool bool   // PeerIP was taken from config.IPPool (and goes back on Down)
 
 	// Counters
 	restartCount   int
@@ -183,6 +184,7 @@ func (ipcp *IPCPStateMachine) Up() {
 	if ipcp.config.PeerIP == nil && ipcp.config.IPPool != nil {
 		ipcp.config.PeerIP = ipcp.config.IPPool.Allocate(ipcp.sessionID)
 		ipcp.negotiated.PeerIP = ipcp.config.PeerIP
+		ipcp.peerFromPool = ipcp.config.PeerIP != nil
 		ipcp.logger.Debug("Allocated IP for peer",
 			zap.String("ip", ipcp.config.PeerIP.String()),
 		)
@@ -208,6 +210,13 @@ func (ipcp *IPCPStateMachine) Down() {
 	// Release allocated IP
 	if ipcp.config.IPPool != nil && ipcp.negotiated.PeerIP != nil {
 		ipcp.config.IPPool.Release(ipcp.sessionID)
+		if ipcp.peerFromPool {
+			// The address is free for other sessions now: do not keep using it;
+			// the next Up() asks the pool again.
+			ipcp.config.PeerIP = nil
+			ipcp.negotiated.PeerIP = nil
+			ipcp.peerFromPool = false
+		}
 	}
 
 	switch ipcp.state {
